@@ -552,7 +552,7 @@ func (g *G) Bool() X {
 	defer g.deeper()()
 	switch g.intn(33, "boolkind") {
 	case 32:
-		if g.F.MySQL {
+		if g.F.MySQL && !g.F.NoMatchAgainst {
 			return g.matchAgainst()
 		}
 		return g.leafBool()
@@ -817,13 +817,16 @@ func (g *G) quantified() X {
 	w := "ANY"
 	if g.chance(50, "all") {
 		w = "ALL"
+	} else if !g.F.NoSome && g.chance(30, "some") {
+		w = "SOME" // the standard's synonym of ANY: same node
+		g.use("some")
 	}
 	sp := w
 	if g.F.QuantifierCase {
 		sp = g.kwText(w)
 	}
 	t := cat(l.T, sym(op), []Tok{{sp, true}}, sym("("), qt, sym(")"))
-	if w == "ANY" {
+	if w != "ALL" {
 		return X{t, &ast.AnyExpression{Expr: l.N, Operator: op, Subquery: qn}, PCmp}
 	}
 	return X{t, &ast.AllExpression{Expr: l.N, Operator: op, Subquery: qn}, PCmp}
